@@ -131,7 +131,7 @@ def one_short_write(res, W, rng, plen, plan, gen):
 # (b) concurrent senders / (c) receivers
 
 
-def sender_scenario(W, nthreads, nframes, piece, line_points, with_recv=False, slow=None):
+def sender_scenario(W, nthreads, nframes, piece, line_points, with_recv=False, slow=None, foreign=False):
     """returns a function(strategy) -> observation dict.  slow=(send_delay, socket_timeout): every transport write
     takes virtual time and the socket has a timeout shorter than a whole frame takes."""
 
@@ -178,6 +178,10 @@ def sender_scenario(W, nthreads, nframes, piece, line_points, with_recv=False, s
                     return
 
         actors = [S.spawn(sender, t, name=f"S{t}") for t in range(nthreads)]
+        if foreign:
+            # sender threads started behind the threading module's back: threading.active_count() does not see them
+            for a in actors:
+                a.foreign = True
         if with_recv:
             actors.append(S.spawn(receiver, name="R0"))
         S.arm(line_points=line_points)
@@ -485,6 +489,9 @@ def run(res, tier, seed, shard, nshards):
     jobs.append(("S", 3, 2, 3, "sweep2-line", 300 if quick else 20000, True))
     jobs.append(("S", 2, 2, 4, "sweep-line", 300 if quick else 100000, True))
     jobs.append(("S", 2, 2, 3, "random", 300 if quick else 5000, True))
+    # sender threads that the threading module does not know about (started through _thread / by a C extension / by an embedding host)
+    jobs.append(("SF", 2, 2, 3, "dfs", 1500 if quick else 20000))
+    jobs.append(("SF", 3, 2, 4, "random", 300 if quick else 5000))
     # slow transport: each write takes 0.05 s, the socket timeout (0.2 s) is shorter than a frame takes
     jobs.append(("SLOW", 3, 2, 4, "random", 200 if quick else 4000))
     jobs.append(("SLOW", 3, 1, 4, "dfs", 400 if quick else 10000))
@@ -514,6 +521,11 @@ def run(res, tier, seed, shard, nshards):
             tag = ("senders", nt, nf, piece, mode, with_recv)
             explore(res, lambda: sender_scenario(W, nt, nf, piece, line, with_recv),
                     lambda obs, S: _js(res, obs, S, nt, nf, tag, with_recv), tag, m, budget, seed * 1000 + ji, "sender_schedules")
+        elif job[0] == "SF":
+            _, nt, nf, piece, mode, budget = job
+            tag = ("senders-foreign-threads", nt, nf, piece, mode)
+            explore(res, lambda: sender_scenario(W, nt, nf, piece, False, False, foreign=True),
+                    lambda obs, S: _js(res, obs, S, nt, nf, tag, False), tag, mode, budget, seed * 1000 + ji, "sender_schedules")
         elif job[0] == "SLOW":
             _, nt, nf, piece, mode, budget = job
             tag = ("senders-slow-transport", nt, nf, piece, mode)
